@@ -175,6 +175,10 @@ def boundary_sources():
         out.append((f"gen/colonpath_{n}", f"struct P{a} {{ x: ::std::string::String, y: ::core::option::Option<u8> }}\nfn f{a}(y: ::core::option::Option<u8>) {{\n    let z: ::std::vec::Vec<u8> = v;\n}}\n"))
         out.append((f"gen/attrmisc_{n}", f"type F{a} = fn(#[cfg(x)] u8, #[cfg(y)] b: u16);\nfn f(x: f64, t: (u8, u8, u8)) {{\n    let c = || #[allow(unused)] {{ foo({a}) }};\n    let (.., _, _) = t;\n    let (p{a}, _, _) = t;\n}}\n"))
         out.append((f"gen/floatrange_{n}", f"fn f{a}(x: f64) {{\n    match x {{\n        1. ..=2. => {{}}\n        3. .. => {{}}\n        4.0..=5.0 => {{}}\n        _ => {{}}\n    }}\n}}\n"))
+        out.append((f"gen/usenest1_{n}", f"use foo::{{b::{{a{a}}}, b::c}};\nuse x::{{y::{{z}}, y::w, y::{{v::{{u}}}}}};\npub use m::{{n::{{o}}, n::{{p}}}};\n\nfn x() {{}}\n"))
+        out.append((f"gen/loopsemi_{n}", f"fn f(flag: &Flag, xs: &[u32]) {{\n    while !flag.load({a}) {{}} ;\n    loop {{\n        break\n    }} ;\n    for x in xs {{\n        g(x)\n    }} ;\n    let y{a} = 1;\n}}\n"))
+        out.append((f"gen/binder_{n}", f"fn apply<F>(f: F)\nwhere\n    F: for<'first, 'second, 'third> Fn(&'first str, &'second str) -> &'third str,\n    for<'x{a}> &'x{a} F: Copy,\n{{\n}}\ntype Cb{a} = for<'first_lifetime, 'second_lifetime> fn(&'first_lifetime u8, &'second_lifetime u8);\nfn g(x: &dyn for<'long_lifetime_name_{a}> Fn(&'long_lifetime_name_{a} u8)) {{}}\n"))
+        out.append((f"gen/emptyfn_{n}", f"fn e{a}(first_parameter: u32, second_parameter: u32) {{}}\nimpl S {{\n    fn m{a}(&self) {{}}\n    fn n(&self) -> u32 {{\n        {a}\n    }}\n}}\nstruct Empty{a} {{}}\nenum Never{a} {{}}\ntrait Marker{a} {{}}\n"))
         out.append((f"gen/tuple1_{n}", f"fn f((a,): (u32,), t: (u8,)) -> (u32,) {{\n    let (x,) = t;\n    let v{a} = match t {{\n        (y,) => y,\n    }};\n    for (k,) in items {{\n        g(|(c,)| c, Some((k,)), (x,), [(v{a},)]);\n    }}\n    if let Some((w,)) = opt {{\n        return ({a},);\n    }}\n    (a,)\n}}\n"))
         out.append((f"gen/quals_{n}", f"pub(crate) const unsafe extern \"C\" fn {a}<'a, T>(x: &'a mut T) -> impl Iterator<Item = &'a T> + 'a {{}}\npub async unsafe fn g{a}(self: Pin<&mut Self>) {{}}\n"))
     return out
